@@ -112,9 +112,13 @@ def check_compute_step(ex, reg, src, name, T):
                detail="stage writes in order: %r" % ([w[1] for w in writes],))
 
 
-def make_rk_self(st, m, T, Tf, extra=None):
+def make_rk_self(st, m, T, Tf, extra=None, sd_keys=()):
     n = len(T.rows)
-    sd = st.new_obj("dict", "dict", items=dict(tau1=Poly.sym("tau1"), niter1=0, newton_prec1=Poly.sym("np1"), newton_iterations=32))
+    items = dict(tau1=Poly.sym("tau1"), niter1=0, newton_prec1=Poly.sym("np1"), newton_iterations=32)
+    for k in sd_keys:
+        # whatever else the real constructor puts into solver_dict holds an arbitrary value left by earlier steps
+        items.setdefault(k, Opaque("stale_" + k))
+    sd = st.new_obj("dict", "dict", items=items)
     fields = dict(stage_values=new_stage_array(st, n), tableau_intermediate=T, tableau_final=Tf, atol=Poly.sym("atol"), rtol=Poly.sym("rtol"),
                   solver_dict=sd, _explicit=m["derived"]["explicit"], _fsal=m["derived"]["fsal"], _adaptive=m["derived"]["adaptive"],
                   _adaptivity_enabled=False, numel=2, initial_rhs=LinComb.sym("cached_initial_rhs"), final_rhs=None,
@@ -125,13 +129,13 @@ def make_rk_self(st, m, T, Tf, extra=None):
     return st.new_obj("RungeKuttaIntegrator", fields=fields)
 
 
-def check_rk_step(ex, reg, src, name, m):
+def check_rk_step(ex, reg, src, name, m, sd_keys=()):
     T, Tf = tab(m["tableau_intermediate"]), tab(m["tableau_final"])
     n = len(T.rows)
     b = list(Tf.rows[0][1:])
     fi = src.func(FT, "RungeKuttaIntegrator.step")
     st = State()
-    selfobj = make_rk_self(st, m, T, Tf)
+    selfobj = make_rk_self(st, m, T, Tf, sd_keys=[k for k in sd_keys if k not in ("newton_iteration_success",)])
     t, h, y = Poly.sym("t"), Poly.sym("h"), LinComb.sym("y")
     consts = st.new_obj("dict", "dict", items={})
     implicit = not m["derived"]["explicit"]
@@ -181,6 +185,15 @@ def check_rk_step(ex, reg, src, name, m):
             ok_f = c is not None and getattr(c["f"], "name", None) == "algebraic_system"
             reg.ground(pre + "solver-called-on-stage-system" + suffix, "pre@callsite", "step", ok_f and "additional_args" in c["kwargs"], backend="syntactic",
                        detail="nonlinear_roots(self.algebraic_system, ..., additional_args=(rhs, t, y, h, constants))")
+            # the tolerance the stage system is solved to (and the acceptance test compares with) is computed from this call's state and the
+            # integrator's atol / rtol -- not from anything an earlier step left behind (data-flow clause over the unmodelled norms)
+            from pyvc.values import deps_of
+            tol_deps = deps_of(c["kwargs"].get("tol")) if c is not None else None
+            if tol_deps is None:
+                reg.undecided(pre + "solver-tolerance-is-a-function-of-this-step" + suffix, "post", "step", "dependencies of the tolerance expression are not tracked: %r" % (c["kwargs"].get("tol") if c else None,))
+            else:
+                reg.ground(pre + "solver-tolerance-is-a-function-of-this-step" + suffix, "post", "step", tol_deps <= {"atol", "rtol", "y"} and {"rtol", "y"} <= tol_deps, backend="dataflow",
+                           detail="tol handed to nonlinear_roots depends on %r (allowed: atol, rtol and the state of this call)" % (sorted(tol_deps),))
             flag = s.obj(o.fields["solver_dict"]).items.get("newton_iteration_success")
             # flag must imply the solver's own success flag (so success => solver claims |F| <= tol, C15) and the prec < tol test
             okflag = False
@@ -321,16 +334,21 @@ def run(tier):
     d = e2common.load_tables(R)
     src = source.load_all()
     for f, q in ((FC, "compute_step"), (FT, "RungeKuttaIntegrator.step"), (FT, "RungeKuttaIntegrator.algebraic_system"),
-                 (FT, "RungeKuttaIntegrator.__call__"), (FT, "ExplicitSymplecticIntegrator.step")):
+                 (FT, "RungeKuttaIntegrator.__call__"), (FT, "ExplicitSymplecticIntegrator.step"), (FT, "RungeKuttaIntegrator.__init__"),
+                 (FT, "TableauIntegrator.__init__")):
         R.under_contract(src.func(f, q))
     try:
         for name in d["explicit"] + d["implicit"]:
             m = d["methods"][name]
             if m["kind"] == "rk":
+                # the branch flags (_explicit, _fsal, _adaptive) step() dispatches on are the defining predicates of the tables: proved
+                # from the real constructor, and equal to what the imported object carries
+                from . import ctor
+                built = ctor.check_rk_init(reg, src, PID, name, m)
                 ex = make_executor(src, reg)
                 check_compute_step(ex, reg, src, name, tab(m["tableau_intermediate"]))
                 ex = make_executor(src, reg)
-                check_rk_step(ex, reg, src, name, m)
+                check_rk_step(ex, reg, src, name, m, sd_keys=built.get("solver_dict_keys") or ())
                 if not m["derived"]["explicit"]:
                     ex = make_executor(src, reg)
                     check_algebraic_system(ex, reg, src, name, m)
